@@ -73,5 +73,13 @@ if [ "$PROP" = "C10" ] && [ $rc -eq 0 ]; then
   ./valgrind_replays.sh "$SEED" $([ "$TIER" = "thorough" ] && echo 60 || echo 8) || rc=$?
 fi
 
+# determinism witness for this very build: a sample of seeds run twice (16 vs 3 worker processes), trace hashes must agree
+v0=$(echo $VARIANTS | cut -d' ' -f1)
+dn=$([ "$TIER" = "thorough" ] && echo 400 || echo 48)
+"build/$v0/vsim" --prop "$PROP" --tier "$TIER" --seed "$SEED" --runs "$dn" --selftest-determinism > build/ev/determinism.txt 2>&1
+dr=$?
+grep "^determinism" build/ev/determinism.txt
+if [ $dr -ne 0 ]; then echo "INFRA: determinism self-test failed"; cat build/ev/determinism.txt | tail -5; [ $rc -eq 0 ] && rc=2; fi
+
 python3 tools/merge_evidence.py "$PROP" "$TIER" "$SEED" "evidence/$PROP.json" $EVS || { [ $rc -eq 0 ] && rc=2; }
 exit $rc
